@@ -79,3 +79,24 @@ package grpc
 //@   ensures[one-message-per-exit] wireCalls == old(wireCalls) + 1 ==> len(wireCert.BridgeExits) == len(certificate.BridgeExits) && len(wireCert.ImportedBridgeExits) == len(certificate.ImportedBridgeExits)
 //@   loop 0 invariant 0 <= rangeindex + 1 && rangeindex + 1 <= len(certificate.BridgeExits) && len(protoCert.BridgeExits) == rangeindex + 1
 //@   loop 1 invariant 0 <= rangeindex + 1 && rangeindex + 1 <= len(certificate.ImportedBridgeExits) && len(protoCert.ImportedBridgeExits) == rangeindex + 1
+
+// ---- reading the Agglayer's verdicts back (C13, C02): the status poll and the start-up reconciliation decide on the
+// height, identity, status and exit roots of the headers returned here. Each of the four decided / in-progress wire
+// statuses maps to its own local status, everything else (pending, unspecified, unknown values) reads as Pending,
+// i.e. undecided; height, network, identity and roots are copied from the message.
+//@ func certificateStatusFromProto
+//@   props C13 C02
+//@   modifies nothing
+//@   ensures[settled] (result == types.Settled) == (status == v1nodetypes.CertificateStatus_CERTIFICATE_STATUS_SETTLED)
+//@   ensures[in-error] (result == types.InError) == (status == v1nodetypes.CertificateStatus_CERTIFICATE_STATUS_IN_ERROR)
+//@   ensures[proven] (result == types.Proven) == (status == v1nodetypes.CertificateStatus_CERTIFICATE_STATUS_PROVEN)
+//@   ensures[candidate] (result == types.Candidate) == (status == v1nodetypes.CertificateStatus_CERTIFICATE_STATUS_CANDIDATE)
+//@   ensures[anything-else-is-undecided] (result == types.Pending) == (status != v1nodetypes.CertificateStatus_CERTIFICATE_STATUS_SETTLED && status != v1nodetypes.CertificateStatus_CERTIFICATE_STATUS_IN_ERROR && status != v1nodetypes.CertificateStatus_CERTIFICATE_STATUS_PROVEN && status != v1nodetypes.CertificateStatus_CERTIFICATE_STATUS_CANDIDATE)
+
+//@ func convertProtoCertificateHeader
+//@   props C13 C02
+//@   requires response != nil ==> (response.CertificateId != nil && response.CertificateId.Value != nil && response.NewLocalExitRoot != nil && response.Metadata != nil)
+//@   ensures[nothing-from-nothing] response == nil ==> result == nil
+//@   ensures[height-network-and-verdict-copied] response != nil ==> result != nil && fresh(result) && result.Height == response.Height && result.NetworkID == response.NetworkId && (result.Status == types.Settled) == (response.Status == v1nodetypes.CertificateStatus_CERTIFICATE_STATUS_SETTLED) && (result.Status == types.InError) == (response.Status == v1nodetypes.CertificateStatus_CERTIFICATE_STATUS_IN_ERROR) && (result.Status == types.Proven) == (response.Status == v1nodetypes.CertificateStatus_CERTIFICATE_STATUS_PROVEN) && (result.Status == types.Candidate) == (response.Status == v1nodetypes.CertificateStatus_CERTIFICATE_STATUS_CANDIDATE)
+//@   ensures[identity-and-roots-copied] response != nil ==> ((len(response.CertificateId.Value.Value) == 32 ==> result.CertificateID == hashOf(seq(response.CertificateId.Value.Value))) && (len(response.NewLocalExitRoot.Value) == 32 ==> result.NewLocalExitRoot == hashOf(seq(response.NewLocalExitRoot.Value))) && (len(response.Metadata.Value) == 32 ==> result.Metadata == hashOf(seq(response.Metadata.Value))))
+//@   ensures[missing-previous-root-is-nil] (response != nil && response.PrevLocalExitRoot == nil) ==> result.PreviousLocalExitRoot == nil
